@@ -56,8 +56,41 @@ func runBitsTask(test int, bits []bool) string {
 		}
 		r := protoAt(test, pr, bits)
 		s += fmt.Sprint(pr, ":", r["Pb"], r["Qb"], r["P2b"], r["Q2b"], ";")
+		// the same call on short prefixes (sparse pattern tables, few blocks): purity needs no oracle, so any accepted
+		// argument may be used
+		for _, short := range []int{100, 257} {
+			if len(bits) > short && short >= minLen(test, pr) && !(test == 13 && pr > short) {
+				s += fmt.Sprint(pr, "/", short, ":", safeProto(test, pr, bits[:short:short]), ";")
+			}
+		}
+	}
+	if test == 10 && len(bits) >= 2048 {
+		// non-square matrices are accepted by the exported bit-oriented entry point
+		for _, mq := range [][2]int{{32, 16}, {16, 32}, {8, 8}, {32, 32}, {3, 5}} {
+			s += fmt.Sprint(mq, ":", safeCall(func() (float64, float64) { return randomness.MatrixRankProto(bits, mq[0], mq[1]) }), ";")
+		}
 	}
 	return s
+}
+
+func safeProto(test, pr int, bits []bool) (out string) {
+	defer func() {
+		if p := recover(); p != nil {
+			out = "panic"
+		}
+	}()
+	r := protoAt(test, pr, bits)
+	return fmt.Sprint(r["Pb"], r["Qb"], r["P2b"], r["Q2b"])
+}
+
+func safeCall(f func() (float64, float64)) (out string) {
+	defer func() {
+		if p := recover(); p != nil {
+			out = "panic"
+		}
+	}()
+	p, q := f()
+	return Bits(p) + Bits(q)
 }
 
 func concurrentCmd(job []byte, out *Out) error {
@@ -67,7 +100,7 @@ func concurrentCmd(job []byte, out *Out) error {
 		// ConcFirst: run the concurrent phase before anything else in this process has called a test, so that lazily
 		// initialised package state is first touched concurrently; results are compared with solitary results afterwards
 		ConcFirst bool `json:"concFirst"`
-		Plans  []struct {
+		Plans     []struct {
 			ID         int    `json:"id"`
 			Goroutines int    `json:"goroutines"`
 			Tasks      []task `json:"tasks"`
